@@ -73,6 +73,23 @@ def siteOk (s : Site) : Bool :=
 def strToByte32 (bs : List Nat) : Except String (List Nat) :=
   if bs.length > 32 then .error "string too long" else .ok (bs ++ List.replicate (32 - bs.length) 0)
 
+/-! ## Byte32ToString: drop the trailing zero bytes (`Gen.C20.byte32ToStringShape`) -/
+
+def byte32ToString (bs : List Nat) : List Nat := (bs.reverse.dropWhile (· == 0)).reverse
+
+/-! ## ValidateModuleName: `^[a-zA-Z][a-zA-Z0-9/]{1,32}$` on the bytes of the name (`Gen.C20.moduleNameRegex`; Go's RE2 classes are
+ASCII, a byte ≥ 0x80 or an invalid UTF-8 sequence matches none of them, `$` without flags is end of text) -/
+
+def isLetterB (b : Nat) : Bool := (65 ≤ b && b ≤ 90) || (97 ≤ b && b ≤ 122)
+
+def isAlnumSlashB (b : Nat) : Bool := isLetterB b || (48 ≤ b && b ≤ 57) || b == 47
+
+/-- `ValidateModuleName(name) == nil` -/
+def validateModuleName (bs : List Nat) : Bool :=
+  match bs with
+  | [] => false
+  | h :: t => isLetterB h && decide (1 ≤ t.length) && decide (t.length ≤ 32) && t.all isAlnumSlashB
+
 /-! ## hex strings (`hex.DecodeString` succeeds) -/
 
 def isHexChar (c : Char) : Bool :=
